@@ -3,30 +3,18 @@
  *
  * With the guard off this header declares nothing and VERIF_YIELD() expands
  * to nothing.  With the guard on, the library calls out to a harness-provided
- * scheduler at the marked points and routes its lock operations through
- * harness-provided wrappers, so that a model checker can enumerate thread
- * interleavings.  No normal build may define the guard: the symbols below are
- * only defined by the verification harness.
+ * scheduler at the marked points, so that a model checker can enumerate thread
+ * interleavings.  Lock operations are NOT rerouted here: the harness interposes
+ * the pthread entry points the library really calls, so the lock mapping of
+ * erasurecode_stdinc.h stays in effect.  No normal build may define the guard:
+ * the symbol below is only defined by the verification harness.
  */
 #ifndef _ERASURECODE_VERIF_H_
 #define _ERASURECODE_VERIF_H_
 
 #ifdef LIBERASURECODE_VERIF
 void liberasurecode_verif_yield(int point);
-int verif_rwlock_rdlock(void *lock);
-int verif_rwlock_wrlock(void *lock);
-int verif_rwlock_unlock(void *lock);
-int verif_mutex_lock(void *lock);
-int verif_mutex_unlock(void *lock);
 #define VERIF_YIELD(p) liberasurecode_verif_yield(p)
-#ifdef rwlock_rdlock
-#undef rwlock_rdlock
-#undef rwlock_wrlock
-#undef rwlock_unlock
-#endif
-#define rwlock_rdlock(l) verif_rwlock_rdlock(l)
-#define rwlock_wrlock(l) verif_rwlock_wrlock(l)
-#define rwlock_unlock(l) verif_rwlock_unlock(l)
 #else
 #define VERIF_YIELD(p)
 #endif
